@@ -158,6 +158,9 @@ def gen_model(rng):
             todo |= {x for x in acc if x not in done and x != nm}
         subl[nm] = alts
     lines = [{"kind": "top", "node": t} for t in tops] + [{"kind": "sub", "node": a} for nm in subl for a in subl[nm]]
+    if rng.random() < 0.12:
+        # the same complete line written twice (other couplings): two amplitudes, each stated once
+        lines.append({"kind": "top", "node": rng.choice(tops), "twice": True})
     rng.shuffle(lines)
     for ln in lines:
         mag = round(rng.uniform(0.1, 2), 4) if rng.random() < 0.88 else rng.choice(["4.2e-09", "1e-12", "7.5E-10", "3e-5", "1250.5"])      # also very small couplings
@@ -404,6 +407,12 @@ def gen_fourbody(rng, event_idx=None, picks=None, namps=None, dangle=True):
         for j, r in enumerate(res):
             k = lsk if j == (len(res) - 1 if lsk in ("kMatrix", "FOCUS") else 0) else rng.choice(["RBW", "RBW", "GSpline", "kMatrix", "FOCUS"])
             r.ls = ls_tag(rng, k)
+        if rng.random() < 0.2:
+            # the two daughters of a two-body vertex written the other way round (rho(770)0{pi-,pi+}): the same amplitude, positions taken from the text
+            cand = [q for q in res if q.kids is not None and len(q.kids) == 2 and all(k.kids is None for k in q.kids) and q.kids[0].name != q.kids[1].name]
+            if cand:
+                rng.choice(cand).kids.reverse()
+                top.reversed_vertex = True
         lines.append({"kind": "top", "node": top})
     # optionally write one resonance of one amplitude as a separate sub-line (+ a second alternative)
     if dangle and lines and rng.random() < 0.5:
